@@ -5,11 +5,13 @@
   "b steps, then n blocks of (t steps, record)".
 -/
 import Batchie.Generated.Sampling
+import Batchie.Model.Sampling
 
 namespace Batchie.Lemmas.SamplingSchedule
 
 open Batchie.PyInt
 open Batchie.Gen.Sampling
+open Batchie.Sampling
 
 /-! ### `range(0, m)` of the translated code is `0, 1, …, m-1` -/
 
@@ -151,17 +153,6 @@ theorem flatMap_blocks (t : Nat) (ht : 1 ≤ t) (n : Nat) :
     simp
 
 /-! ### reading a trace: step count at every record -/
-
-/-- scan a trace: `cnt` = steps seen so far; emits `cnt` at every record event -/
-def recordPositionsFrom : Nat → List Int → List Nat
-  | _, [] => []
-  | cnt, e :: es =>
-    if e = 0 then recordPositionsFrom (cnt + 1) es
-    else if e = 1 then cnt :: recordPositionsFrom cnt es
-    else recordPositionsFrom cnt es
-
-/-- number of model steps that precede each `record` event of a trace -/
-def recordPositions (tr : List Int) : List Nat := recordPositionsFrom 0 tr
 
 theorem rpf_append (c : Nat) (a b : List Int) :
     recordPositionsFrom c (a ++ b)
